@@ -265,6 +265,58 @@ func GRPCTags() []MethodCase {
 	add("union-mixed-members-3,7,12", []*Attr{AT(1, "aa", &Type{K: KUnion, Attrs: []*Attr{AT(3, "us", User("AliasS")), AT(7, "uo", User("Inner")), AT(12, "up", i)}})}, aliasDefs)
 	add("union-name-equals-member", []*Attr{AT(1, "us", &Type{K: KUnion, Attrs: []*Attr{AT(5, "us", s), AT(6, "ui", i)}})}, nil)
 	add("name-is-keyword", []*Attr{AT(1, "message", s), AT(2, "optional", i), AT(3, "map", s)}, nil)
+	// credentials: a method-level security requirement whose credential attribute(s) sit in the
+	// payload (untagged: goa sends them as request metadata) x their position among the other
+	// attributes x the field numbers of those: right, duplicate, missing. The numbers of the
+	// attributes declared next to a credential are held to the same rules as everywhere else.
+	type cred struct {
+		name   string
+		scheme string
+		attrs  func() []*Attr
+	}
+	creds := []cred{
+		{"jwt", "jwt", func() []*Attr { return []*Attr{{Name: "tok", T: P(KString), Sec: "token"}} }},
+		{"apikey", "aks", func() []*Attr { return []*Attr{{Name: "keyh", T: P(KString), Sec: "apikey:aks"}} }},
+		{"basic", "bsc", func() []*Attr {
+			return []*Attr{{Name: "usr", T: P(KString), Sec: "username"}, {Name: "pwd", T: P(KString), Sec: "password"}}
+		}},
+	}
+	for _, cr := range creds {
+		for _, pos := range []string{"first", "middle", "last"} {
+			for _, tc := range []string{"1,2", "duplicate", "missing"} {
+				aa, bb := AT(1, "aa", P(KString)), AT(2, "bb", P(KInt32))
+				switch tc {
+				case "duplicate":
+					bb.Tag = 1
+				case "missing":
+					bb.Tag = 0
+				}
+				var attrs []*Attr
+				switch pos {
+				case "first":
+					attrs = append(append(attrs, cr.attrs()...), aa, bb)
+				case "middle":
+					attrs = append(append(append(attrs, aa), cr.attrs()...), bb)
+				default:
+					attrs = append(append(attrs, aa, bb), cr.attrs()...)
+				}
+				obj := &Type{K: KObject, Attrs: attrs}
+				for _, a := range attrs {
+					if a.Sec != "" {
+						obj.Required = append(obj.Required, a.Name)
+					}
+				}
+				m := &Method{Name: c.next(), GRPC: &GRPCMap{}, Payload: obj}
+				req := Requirement{{Scheme: cr.scheme}}
+				if cr.scheme == "jwt" {
+					req = Requirement{{Scheme: "jwt", Scopes: []string{"s1"}}}
+				}
+				m.Security = &Security{Reqs: []Requirement{req}}
+				m.Feat = map[string]string{"family": "G-tags", "side": "payload", "tags": fmt.Sprintf("credential-%s-%s+%s", cr.name, pos, tc)}
+				out = append(out, MethodCase{M: m, Schemes: SecSchemes(), Own: tc != "1,2"})
+			}
+		}
+	}
 	return out
 }
 
